@@ -122,6 +122,8 @@ func init() {
 		"(*sync.RWMutex).RLock": func(in *Interp, fn *ssa.Function, a []Value) Value { return nil },
 		"(*sync.RWMutex).RUnlock": func(in *Interp, fn *ssa.Function, a []Value) Value { return nil },
 		"(*sync.Once).Do":       xOnceDo,
+		"(*sync.Pool).Get":      xPoolGet,
+		"(*sync.Pool).Put":      xPoolPut,
 		"time.Now": func(in *Interp, fn *ssa.Function, a []Value) Value {
 			return Agg{in.C.Const(64, 0), in.clock(), Pointer{}}
 		},
@@ -434,4 +436,43 @@ func (in *Interp) clock() *smt.Term {
 	t := in.C.Const(64, 1<<50)
 	in.ghost["clock"] = t
 	return t
+}
+
+// sync.Pool model: a per-pool LIFO (an object put back is handed out again by the next Get — the
+// behaviour that exposes stale-buffer bugs); New is called when the pool is empty.
+func poolKey(p Pointer) string { return fmt.Sprintf("pool:%d:%d", p.Obj.ID, p.Off) }
+
+func xPoolGet(in *Interp, fn *ssa.Function, a []Value) Value {
+	p := a[0].(Pointer)
+	if p.Obj == nil {
+		in.goPanicf("nil pointer dereference (sync.Pool)")
+	}
+	k := poolKey(p)
+	if l, ok := in.ghost[k].([]Value); ok && len(l) > 0 {
+		v := l[len(l)-1]
+		in.ghost[k] = l[:len(l)-1]
+		return v
+	}
+	// New is the last field of sync.Pool
+	pt := fn.Signature.Recv().Type().(*types.Pointer).Elem()
+	lay := in.layoutOf(pt)
+	newFn := p.Obj.Cells[p.Off+lay.fields[len(lay.fields)-1]]
+	if cl, ok := newFn.(*Closure); ok && cl != nil {
+		return in.callValue(cl, nil)
+	}
+	return Iface{}
+}
+
+func xPoolPut(in *Interp, fn *ssa.Function, a []Value) Value {
+	p := a[0].(Pointer)
+	if p.Obj == nil {
+		in.goPanicf("nil pointer dereference (sync.Pool)")
+	}
+	if v, ok := a[1].(Iface); ok && v.T == nil {
+		return nil
+	}
+	k := poolKey(p)
+	l, _ := in.ghost[k].([]Value)
+	in.ghost[k] = append(l, a[1])
+	return nil
 }
